@@ -649,6 +649,16 @@ struct Value {
         DO(add);
         DO(sub);
         if (fun == "jacobi") { do_jacobi_symbol(); return true; }
+        // every transform of the tf table has an inline form, also under the name `tf -h` prints for it
+        DO(len);
+        DO(bech32menc);
+        DO(verify_sig_compact);
+        if (fun == "b32d") { do_bech32dec(); return true; }
+        if (fun == "b32e") { do_bech32enc(); return true; }
+        if (fun == "b32me") { do_bech32menc(); return true; }
+        if (fun == "b58cd") { do_base58chkdec(); return true; }
+        if (fun == "b58ce") { do_base58chkenc(); return true; }
+        if (fun == "jacobi_sym") { do_jacobi_symbol(); return true; }
         DO(tagged_hash);
         DO(taproot_tweak_pubkey);
         DO(prefix_compact_size);
